@@ -205,15 +205,15 @@ def theorem_names(prop_files):
     return names
 
 
-def build_runner(race=False):
-    """Build the Go harness against REPO's current working tree with -tags verif."""
-    with Lock("runner"):
-        h = os.path.join(ROOT, "harness")
+def build_runner(race=False, module="harness", exe_name="runner"):
+    """Build a Go harness module against REPO's current working tree with -tags verif."""
+    with Lock(exe_name):
+        h = os.path.join(ROOT, module)
         gomod = ("module verifharness\n\ngo 1.18\n\nrequire github.com/bradenaw/juniper v0.0.0\n\n"
                  "replace github.com/bradenaw/juniper => %s\n" % REPO)
         write_if_changed(os.path.join(h, "go.mod"), gomod)
         shutil.copyfile(os.path.join(REPO, "go.sum"), os.path.join(h, "go.sum"))
-        exe = os.path.join(BUILD, "runner-race" if race else "runner")
+        exe = os.path.join(BUILD, exe_name + ("-race" if race else ""))
         cmd = ["go", "build", "-tags", "verif"] + (["-race"] if race else []) + ["-o", exe, "."]
         rc, out = sh(cmd, cwd=h, env=GOENV, timeout=900)
         return rc == 0, out, exe
